@@ -58,6 +58,39 @@ def ev(t, env):
     raise ValueError('not an integer expression: ' + sk(t))
 
 
+def ev_deep(t):
+    """integer value of a closed term built from literals, tuple / array projections"""
+    t = strip(t)
+    if t[0] == 'const' and isinstance(t[1], int):
+        return t[1]
+    if t[0] == 'field' and t[2].isdigit():
+        base = ev_struct(t[1])
+        return _as_int(base[int(t[2])])
+    raise ValueError('not a literal: ' + sk(t))
+
+
+def ev_struct(t):
+    t = strip(t)
+    if t[0] == 'tuple':
+        return list(t[1])
+    if t[0] == 'agg':
+        return list(t[2])
+    if t[0] == 'index':
+        arr = ev_struct(t[1])
+        i = ev_deep(t[2])
+        return ev_struct(arr[i])
+    if t[0] == 'field' and t[2].isdigit():
+        return ev_struct(ev_struct(t[1])[int(t[2])])
+    raise ValueError('not a literal structure: ' + sk(t))
+
+
+def _as_int(t):
+    t = strip(t)
+    if t[0] == 'const' and isinstance(t[1], int):
+        return t[1]
+    raise ValueError('not an int: ' + sk(t))
+
+
 def ctype_of(p):
     for e in p.branches():
         s = sk(e.term)
@@ -94,6 +127,14 @@ def extract(facts, rep):
         for e in p.calls():
             if '{closure' in e.name and len(e.args) == 2 and e.args[1][0] == 'tuple':
                 pairs.append(tuple(sorted(x[1] for x in e.args[1][1])))
+            elif len(e.args) == 3 and strip(e.args[0]) == ('arg', 1):
+                # a private helper taking the two end indices (self.arc_between(i, j)); literal arrays are folded
+                try:
+                    pairs.append(tuple(sorted(ev_deep(x) for x in e.args[1:])))
+                except ValueError:
+                    pass
+        if len(pairs) != 2:
+            raise ValueError('arcs(%s): %d index pairs recognised' % (ct, len(pairs)))
         T['arcs'][ct] = sorted(pairs)
     # resolve
     b = one(r'^yui_link::link::crossing::Crossing::resolve$')
